@@ -23,7 +23,7 @@ RULE = ('regex ASTs: every tree of size <= 4 (quick; <= 5 thorough) over the lea
         'of length <= 3 and 220 seeded samples of length 4 (thorough: every string <= 5) over the characters a b | * ( ) '
         'plus a fixed list exercising + ? . [..] \\ ; '
         'distinct non-trivial = distinct (regex, word) pairs with the regex not Eps/NULL and compile() succeeding')
-EXPLANATION = ('Unbounded Coq theorems about the hand model (19 in Props/C31.v): nullable() <-> empty word in L; derivative = left '
+EXPLANATION = ('Unbounded Coq theorems about the hand model (22 in Props/C31.v): nullable() <-> empty word in L; derivative = left '
                'quotient through every smart-constructor simplification; derivative classes sound, covering 0..255, pairwise '
                'disjoint; compile()+table run: total on words over 0..255 and accepts exactly L(r) (c31_run_total, '
                'c31_dfa_correct) whenever compile returns tables; compile termination under a decidable certificate '
@@ -32,7 +32,10 @@ EXPLANATION = ('Unbounded Coq theorems about the hand model (19 in Props/C31.v):
                'for non-nullable regexes in all outcomes (tokens / ValueError / never internal error; no fuel bound proved); '
                'the parser as found is refuted, the repaired parser returns exactly the grammar-prescribed AST for every '
                'well-formed syntax tree of the reference grammar (c31_parser_matches_grammar) whose language is the tree\'s '
-               'language (c31_parser_language). Modelled extensionally, not verified here: IntegerSet algorithms (C33).')
+               'language (c31_parser_language). Repaired variants (probed per run, switches in coverage.stages.switches): compile_fx '
+               '(error state always present: c31_dfa_correct_fx holds also for ".*") and scan_fx (empty match = no match: '
+               'c31_scan_total, termination within (len+2)^2 iterations for EVERY regex, c31_scan_correct_fx maximal munch '
+               'without the non-nullable hypothesis). Modelled extensionally, not verified here: IntegerSet algorithms (C33).')
 TRUSTED = ['hand model coq/Model/Regex.v (cross-checked against the implementation on every run: AST-level nu/derivative/'
            'classes/compile tables/run, smart constructors, IntegerSet operations, parser, scan)',
            'CPython: sorted()/list.sort() on int tuples = lexicographic insertion sort; bisect.bisect on a sorted list = '
@@ -378,7 +381,28 @@ def outcome_re(r):
     return OkV(re_pyval(r.v)) if isinstance(r, OkV) else r
 
 
-def corr_ast(ctx, im, maxsize, maxlen):
+def probe_switches(ctx, im):
+    """which repairs does the implementation contain? (the model follows: Model.RegexVal.*_sw)"""
+    _prog, ex = impl_compile(im, im.rx.Kleene(im.rx.SIGMA))
+    fxc = ex is None
+    fxs = False
+    try:
+        prog, _ = impl_compile(im, im.rx.Kleene(im.rx.Symbol('a')))
+        toks = list(itertools.islice(im.sc.scan(prog, 'b'), 50))
+        fxs = len(toks) < 50
+    except ValueError:
+        fxs = True
+    except Exception:   # noqa: BLE001
+        fxs = False
+    ctx.cov['stages']['switches'] = {'compile_error_state_repaired': fxc, 'scan_empty_match_repaired': fxs}
+    return fxc, fxs
+
+
+def coqb(b):
+    return 'true' if b else 'false'
+
+
+def corr_ast(ctx, im, maxsize, maxlen, fxc=False):
     by = enum_asts(im, maxsize)
     words = words_upto(maxlen)
     cases, recs = [], []
@@ -398,14 +422,14 @@ def corr_ast(ctx, im, maxsize, maxlen):
             prog, ex, outs = real_runs(im, r, words)
             if ex is None:
                 dist['compile_ok'] += 1
-                cases.append(('case_compile %d %s' % (FUEL, t), OkV(prog_pyval(prog))))
+                cases.append(('case_compile_sw %s %d %s' % (coqb(fxc), FUEL, t), OkV(prog_pyval(prog))))
                 if type(r).__name__ != 'Epsilon' and r != im.rx.NULL:
                     nontriv += len(words)
             else:
                 dist['compile_internal'] += 1
-                cases.append(('case_compile %d %s' % (FUEL, t), Internal))
+                cases.append(('case_compile_sw %s %d %s' % (coqb(fxc), FUEL, t), Internal))
             recs.append(('compile', r))
-            cases.append(('case_run %d %s %d' % (FUEL, t, maxlen), outs))
+            cases.append(('case_run_sw %s %d %s %d' % (coqb(fxc), FUEL, t, maxlen), outs))
             recs.append(('run', r))
     # the hypothesis re_canon of the DFA/scan theorems holds for every regex object Python can build
     terms = [re_term(r) for size in sorted(by) for r in by[size]]
@@ -502,27 +526,32 @@ def corr_parser(ctx, im, maxlen):
                                   % (len(bad), recs[bad[0]])))
 
 
-def corr_scan(ctx, im, maxlen):
+def corr_scan(ctx, im, maxlen, fxc=False, fxs=False):
     rx = im.rx
     a, b = rx.Symbol('a'), rx.Symbol('b')
     pool = [a, a + b, a + rx.Kleene(a), (a + b) | (b + b + a), rx.Kleene(a) + b, (a | b) + rx.Kleene(a + b),
-            rx.SymbolSet([(97, 98)]) + rx.Kleene(b)]
+            rx.SymbolSet([(97, 98)]) + rx.Kleene(b),
+            # nullable token regexes (diverge before the scan repair) and an unreachable error state
+            rx.Kleene(a), a | rx.EPSILON, rx.Kleene(a + b), rx.Kleene(rx.SIGMA), rx.SIGMA + rx.Kleene(rx.SIGMA)]
     words = words_upto(maxlen)
     cases = []
     for r in pool:
-        assert not r.nullable()
-        prog, _ex = impl_compile(im, r)
+        prog, ex = impl_compile(im, r)
         outs = []
         for w in words:
+            if ex is not None:
+                outs.append(Internal)
+                continue
             txt = ''.join(chr(c) for c in w)
             try:
                 toks = list(itertools.islice(im.sc.scan(prog, txt), len(w) + 3))
-                outs.append(OkV([[ord(c) for c in tok] for tok in toks]))
+                # more tokens than characters: the scan makes no progress (diverges); the model runs out of fuel
+                outs.append(Internal if len(toks) >= len(w) + 3 else OkV([[ord(c) for c in tok] for tok in toks]))
             except ValueError:
                 outs.append(Diag)
             except Exception:   # noqa: BLE001
                 outs.append(Internal)
-        cases.append(('case_scan %d %s %d' % (FUEL, re_term(r), maxlen), outs))
+        cases.append(('case_scan_sw %s %s %d %s %d' % (coqb(fxc), coqb(fxs), FUEL, re_term(r), maxlen), outs))
     ctx.cov['stages']['correspondence_scan'] = {'regexes': len(pool), 'words': len(words)}
     bad = ctx.run_cases('scan', IMPORTS, cases)
     if bad:
@@ -543,11 +572,12 @@ def run(ctx):
         ctx.check_props('Props/C31.v')
         w['props'] = round(_t.time() - t, 1)
         quick = ctx.quick()
+        fxc, fxs = probe_switches(ctx, im)
         import time
-        for name, fn in (('ast', lambda: corr_ast(ctx, im, 4 if quick else 5, 4 if quick else 5)),
+        for name, fn in (('ast', lambda: corr_ast(ctx, im, 4 if quick else 5, 4 if quick else 5, fxc)),
                          ('smart', lambda: corr_smart(ctx, im)), ('iset', lambda: corr_iset(ctx, im)),
                          ('parser', lambda: corr_parser(ctx, im, 4 if quick else 5)),
-                         ('scan', lambda: corr_scan(ctx, im, 4 if quick else 5))):
+                         ('scan', lambda: corr_scan(ctx, im, 4 if quick else 5, fxc, fxs))):
             t = time.time()
             fn()
             ctx.cov['stages'].setdefault('wall_s', {})[name] = round(time.time() - t, 1)
@@ -571,6 +601,9 @@ MANIFEST = {
             'concrete-syntax strings; IntegerSet contains/intersection/difference modelled extensionally (property C33 covers the '
             'algorithms). Not proved: fuel bound for scan, termination of compile in general (false: known finding). Known findings: '
             'compile() KeyError when the NULL state is unreachable (".*"); compile() diverges when derivatives are not finite modulo '
-            'the implemented simplifications ("a*a*"); scan() diverges on nullable regexes.',
+            'the implemented simplifications ("a*a*"); scan() diverges on nullable regexes. The first and the last are repaired by '
+            'fixes/C31-regex-compile-error-state.diff and fixes/C31-regex-scan-empty-match.diff; the model contains both variants '
+            '(compile/compile_fx, scan/scan_fx), the check probes the source and cross-checks the matching one; theorems '
+            'c31_dfa_correct_fx, c31_scan_total, c31_scan_correct_fx are about the repaired variants.',
     'technique': 'Coq proof over hand model (Brzozowski derivatives, recursive-descent round trip) + exhaustive small-domain correspondence + two independent oracles',
 }
